@@ -1,3 +1,925 @@
-/* placeholder, replaced when the mode is implemented */
+/*
+ * m_coro.c - C03: context switches preserve each coroutine's execution state
+ * and deliver messages.
+ *
+ * A case is a PROGRAM: one script of steps per actor (actor 0 = main /
+ * dispatcher, actors 1..n = coroutines or processes). The executor interprets
+ * the program with the real library API. Every library call that may switch is
+ * issued
+ *   - at the generated call depth (recursive frames holding canary arrays),
+ *   - through the nasm probe coro_probe_call (coro_probe.asm), which loads
+ *     generated 64-bit patterns into rbx, rbp, r12-r15 and a generated MXCSR,
+ *     calls coro_thunk() (the one library call) and stores the registers and
+ *     MXCSR again when the call returns.
+ * A reference model of the documented semantics (status / caller / parent /
+ * current; for layer "process" also the event queue: time, FIFO) runs in
+ * lockstep: the actor that gives up control records who must get control next
+ * and with which message; whoever gets control checks that it is the expected
+ * actor, in the expected way (function entry / return from its own switch call /
+ * exit function), with the expected message. A step whose documented
+ * precondition is false in the model when it is reached is skipped and logged
+ * (K line), never executed.
+ *
+ * layer raw     : cmi_coroutine_start/resume/transfer/yield/exit/stop, return
+ *                 through the trampoline into the default exit function or into
+ *                 a probing exit stub.
+ * layer process : cmb_process_start (start event), cmb_event_execute_next (the
+ *                 dispatcher, through the probe), cmb_process_hold/yield/resume/
+ *                 stop/exit, return through the trampoline into
+ *                 cmb_process_exit, cmb_process_exit_value.
+ *
+ * Trace lines:  B entry, S switch call, R return of a switch call, X exit
+ * function, K skipped step, P parked, N summary counters, F oracle failure.
+ */
+#include <inttypes.h>
+#include <stdarg.h>
+#include <stdlib.h>
+#include <string.h>
+#include <unistd.h>
+
+#include "cmb_event.h"
+#include "cmb_logger.h"
+#include "cmb_process.h"
+#include "cmi_coroutine.h"
+
 #include "cimx.h"
-int mode_coro(char *text, FILE *trace) { (void)text; fprintf(trace, "F mode coro not implemented\n"); return CIMX_PARSE_ERROR; }
+
+/* ------------------------------------------------------ shared with asm -- */
+
+struct coro_probe_io {
+    uint64_t in[6];             /* rbx rbp r12 r13 r14 r15 */
+    uint64_t out[6];
+    uint32_t mxcsr_in;
+    uint32_t mxcsr_out;
+    uint64_t rsp_in;
+    uint64_t rsp_out;
+    uint64_t guard_out;
+    /* thunk part (C only) */
+    int op;
+    void *target;
+    uint64_t val;
+    uint64_t ret;
+};
+
+struct coro_snap {
+    uint64_t rsp, rbx, rbp, r12, r13, r14, r15;
+    uint32_t mxcsr;
+    uint32_t movaps_done;
+};
+
+#define PROBE_GUARD UINT64_C(0x5ca1ab1ec0ffee11)
+
+extern void coro_probe_call(struct coro_probe_io *io, void (*thunk)(struct coro_probe_io *));
+extern void *coro_entry_stub(struct cmi_coroutine *cp, void *context);
+extern void coro_exit_stub(void *retval);
+extern struct coro_snap coro_entry_snap, coro_exit_snap;
+void *coro_body(struct cmi_coroutine *cp, void *context);
+void coro_exit_body(void *retval);
+
+/* ---------------------------------------------------------------- types -- */
+
+#define MAXCO 6
+#define MAXACT (MAXCO + 1)
+#define MAXDEPTH 40
+#define CANARY_N 6
+#define MXCSR_CONTROL 0xFFC0u       /* DAZ, six masks, rounding control, FTZ */
+#define MXCSR_DEFAULT 0x1F80u
+#define PARK_MSG UINT64_C(0x7061726b65642121)
+
+enum { L_RAW, L_PROC };
+enum { ST_CREATED = 0, ST_RUNNING = 1, ST_FINISHED = 2 };
+enum {
+    OP_START, OP_RESUME, OP_TRANSFER, OP_YIELD, OP_RETURN, OP_EXIT, OP_STOP,
+    OP_PSTART, OP_PRESUME, OP_PSTOP, OP_RUN, OP_HOLD, OP_PYIELD, OP_PEXIT, OP_PRETURN,
+    OP_COUNT
+};
+static const char *const opname[OP_COUNT] = {
+    "start", "resume", "transfer", "yield", "return", "exit", "stop",
+    "pstart", "presume", "pstop", "run", "hold", "pyield", "pexit", "preturn"
+};
+
+struct step {
+    int op, tgt, depth, idx;
+    uint64_t val;
+    uint64_t regs[6];
+    uint32_t mxcsr;
+};
+
+struct actor {
+    int id;
+    struct cmi_coroutine *cp;
+    struct cmb_process *pp;
+    uint64_t ctx;
+    size_t stack_size;
+    int exitfn;                 /* raw: 0 = library default, 1 = probing stub */
+    struct step *steps;
+    int nsteps, capsteps, pc;
+    /* model */
+    int status, caller, parent;
+    uint64_t exit_value;
+    int incarnation;
+    int stopped_by_other;       /* last end was a stop by someone else */
+    int entered;                /* function entered at least once */
+    int resumed;                /* returned from a switch call at least once */
+    int timer;                  /* process layer: model event of the pending hold timer */
+    uint64_t parks;
+};
+
+enum { EX_NONE, EX_ENTRY, EX_RETURN, EX_EXITFN };
+static const char *const exname[] = { "nothing", "function entry", "return of its switch call",
+                                      "exit function" };
+
+static struct {
+    int actor, kind, check;
+    uint64_t msg;
+} expect;
+
+/* process-layer model of the event queue */
+enum { EV_START, EV_TIMER, EV_RESUME };
+struct mev { int live, kind, proc; double t; uint64_t seq; int64_t sig; };
+#define MAXMEV 8192
+static struct mev mq[MAXMEV];
+static int nmq;
+static uint64_t mq_seq;
+static double m_now;
+
+static FILE *tr;
+static int layer;
+static int nact;                    /* actors including main */
+static struct actor act[MAXACT];
+static int m_current;               /* model: who has control */
+static int m_switching;             /* set by m_pre: the call about to be made gives up control */
+
+static struct {
+    uint64_t steps, skipped, probes, switches, maxdepth, deep, deep_nd, nondefault,
+        unmasked, rcmask, starts, restarts, stoprestart, tramp, exits, exit_deep, stops,
+        parks, yields, transfers, resumes, mainyield, nested_start, flagsdiff, events,
+        holds, timerwake, resumewake, exitprobe, selfstop;
+} cnt;
+
+/* -------------------------------------------------------------- failure -- */
+
+__attribute__((noreturn, format(printf, 1, 2)))
+static void fail(const char *fmt, ...)
+{
+    va_list ap;
+    fputs("F ", tr);
+    va_start(ap, fmt);
+    vfprintf(tr, fmt, ap);
+    va_end(ap);
+    fputc('\n', tr);
+    fflush(tr);
+    _exit(CIMX_ORACLE_FAIL);
+}
+
+static const char *aname(const int id)
+{
+    static const char *const names[MAXACT] = { "main", "c1", "c2", "c3", "c4", "c5", "c6" };
+    return (id >= 0 && id < MAXACT) ? names[id] : "none";
+}
+
+/* ------------------------------------------------- model: event queue ---- */
+
+static int mq_add(const int kind, const int proc, const int64_t sig, const double t)
+{
+    if (nmq >= MAXMEV) fail("machinery: model event queue overflow");
+    mq[nmq] = (struct mev){ 1, kind, proc, t, mq_seq++, sig };
+    return nmq++;
+}
+
+static int mq_count(void)
+{
+    int n = 0;
+    for (int i = 0; i < nmq; i++) n += mq[i].live;
+    return n;
+}
+
+static int mq_next(void)
+{
+    int best = -1;
+    for (int i = 0; i < nmq; i++) {
+        if (!mq[i].live) continue;
+        /* documented order: time, then priority (all equal here), then FIFO */
+        if (best < 0 || mq[i].t < mq[best].t
+            || (mq[i].t == mq[best].t && mq[i].seq < mq[best].seq)) best = i;
+    }
+    return best;
+}
+
+static void mq_remove_subject(const int proc)
+{
+    for (int i = 0; i < nmq; i++) if (mq[i].proc == proc) mq[i].live = 0;
+    act[proc].timer = -1;
+}
+
+static int mq_start_pending(const int proc)
+{
+    for (int i = 0; i < nmq; i++)
+        if (mq[i].live && mq[i].proc == proc && mq[i].kind == EV_START) return 1;
+    return 0;
+}
+
+/* --------------------------------------- cross-check of library state ---- */
+
+static void *handle_of(const struct actor *a)
+{
+    return (a->id == 0) ? (void *)cmi_coroutine_main() : (void *)a->cp;
+}
+
+static void cross_check(const struct actor *me, const char *where)
+{
+    if ((void *)cmi_coroutine_current() != handle_of(me))
+        fail("current: cmi_coroutine_current() is not the handle of %s %s", aname(me->id), where);
+    if (layer == L_PROC) {
+        if (cmb_process_current() != (me->id == 0 ? NULL : me->pp))
+            fail("current: cmb_process_current() wrong in %s %s", aname(me->id), where);
+        if (cmb_time() != m_now)
+            fail("machinery-or-time: cmb_time() %a but model time %a in %s %s",
+                 cmb_time(), m_now, aname(me->id), where);
+        if (cmb_event_queue_count() != (uint64_t)mq_count())
+            fail("machinery-or-queue: %" PRIu64 " events queued, model has %d, in %s %s",
+                 cmb_event_queue_count(), mq_count(), aname(me->id), where);
+    }
+    for (int i = 1; i < nact; i++) {
+        const struct actor *a = &act[i];
+        const int st = (int)cmi_coroutine_status(a->cp);
+        if (st != a->status)
+            fail("status: %s has status %d, model says %d (seen from %s %s)",
+                 aname(i), st, a->status, aname(me->id), where);
+        const uint64_t ev = (uint64_t)(uintptr_t)cmi_coroutine_exit_value(a->cp);
+        const uint64_t want = (a->status == ST_FINISHED) ? a->exit_value : 0;
+        if (ev != want)
+            fail("exit-value: %s (status %d) has exit value %#" PRIx64 ", expected %#" PRIx64
+                 " (seen from %s %s)", aname(i), a->status, ev, want, aname(me->id), where);
+        if (layer == L_PROC) {
+            const uint64_t pv = (uint64_t)(uintptr_t)cmb_process_exit_value(a->pp);
+            if (pv != want)
+                fail("exit-value: cmb_process_exit_value(%s) %#" PRIx64 ", expected %#" PRIx64,
+                     aname(i), pv, want);
+        }
+        /* a suspended or ended coroutine's saved stack pointer: the context
+           switch was called from ABI-compliant code, so it is 8 mod 16 */
+        if (i != me->id && a->entered
+            && (((uintptr_t)a->cp->stack_pointer + 8u) % 16u) != 0u)
+            fail("saved-sp-alignment: %s (status %d) saved stack pointer %p is not 8 mod 16",
+                 aname(i), a->status, (void *)a->cp->stack_pointer);
+    }
+}
+
+static void arrive(struct actor *a, const int kind, const uint64_t got)
+{
+    if (expect.kind == EX_NONE)
+        fail("control: %s got control (%s) with no transfer outstanding", aname(a->id), exname[kind]);
+    if (expect.actor != a->id || expect.kind != kind)
+        fail("control: %s got control by %s, model expects %s by %s",
+             aname(a->id), exname[kind], aname(expect.actor), exname[expect.kind]);
+    if (expect.check && got != expect.msg)
+        fail("message: %s received %#" PRIx64 " by %s, expected %#" PRIx64,
+             aname(a->id), got, exname[kind], expect.msg);
+    expect.kind = EX_NONE;
+    m_current = a->id;
+    cross_check(a, exname[kind]);
+}
+
+static void expect_set(const int actor, const int kind, const int check, const uint64_t msg)
+{
+    expect.actor = actor;
+    expect.kind = kind;
+    expect.check = check;
+    expect.msg = msg;
+}
+
+/* ------------------------------------------------------ model: raw layer - */
+
+/* control passes from -> to with msg: "to" is suspended inside a switch call */
+static void m_transfer(const struct actor *from, struct actor *to, const uint64_t msg)
+{
+    to->caller = from->id;
+    expect_set(to->id, EX_RETURN, 1, msg);
+}
+
+static void m_begin(struct actor *c, const int starter)
+{
+    if (c->status == ST_FINISHED) {
+        cnt.restarts++;
+        if (c->stopped_by_other) cnt.stoprestart++;
+    }
+    c->parent = starter;
+    c->caller = starter;
+    c->exit_value = 0;
+    c->status = ST_RUNNING;
+    c->stopped_by_other = 0;
+    c->incarnation++;
+    cnt.starts++;
+    if (starter != 0) cnt.nested_start++;
+    /* the message given to start is not observable by the new coroutine */
+    expect_set(c->id, EX_ENTRY, 0, 0);
+}
+
+static void m_finish(struct actor *a, const uint64_t val)
+{
+    a->status = ST_FINISHED;
+    a->exit_value = val;
+    a->stopped_by_other = 0;
+    if (layer == L_RAW) {
+        m_transfer(a, &act[a->parent], val);
+    }
+    else {
+        mq_remove_subject(a->id);
+        /* back in the dispatcher: cmb_event_execute_next() returns true */
+        act[0].caller = a->id;
+        expect_set(0, EX_RETURN, 1, 1);
+    }
+}
+
+static int parent_running(const struct actor *a)
+{
+    return a->parent >= 0 && act[a->parent].status == ST_RUNNING;
+}
+
+/* Documented precondition of the step in the model state; NULL = enabled */
+static const char *disabled(const struct actor *a, const struct step *s)
+{
+    const int t = s->tgt;
+    const int is_co = (t >= 1 && t < nact);
+    switch (s->op) {
+    case OP_START:
+        if (!is_co) return "no-such-coroutine";
+        if (act[t].status == ST_RUNNING) return "target-running";
+        return NULL;
+    case OP_RESUME:
+    case OP_TRANSFER:
+        if (t < 0 || t >= nact) return "no-such-coroutine";
+        if (t == a->id) return "target-is-self";
+        if (act[t].status != ST_RUNNING) return "target-not-running";
+        return NULL;
+    case OP_YIELD:
+        if (a->caller < 0) return "no-caller";
+        if (a->caller == a->id) return "caller-is-self";
+        if (act[a->caller].status != ST_RUNNING) return "caller-not-running";
+        return NULL;
+    case OP_RETURN:
+    case OP_EXIT:
+        if (a->id == 0) return "main-cannot-exit";
+        if (!parent_running(a)) return "parent-not-running";
+        return NULL;
+    case OP_STOP:
+        if (!is_co) return "no-such-coroutine";
+        if (act[t].status != ST_RUNNING) return "target-not-running";
+        if (t == a->id && !parent_running(a)) return "parent-not-running";
+        return NULL;
+    case OP_PSTART:
+        if (!is_co) return "no-such-process";
+        if (act[t].status == ST_RUNNING) return "target-running";
+        if (mq_start_pending(t)) return "start-pending";
+        return NULL;
+    case OP_PRESUME:
+        if (!is_co) return "no-such-process";
+        if (act[t].status != ST_RUNNING) return "target-not-running";
+        if (s->val == 0) return "signal-zero";
+        return NULL;
+    case OP_PSTOP:
+        if (!is_co) return "no-such-process";
+        if (act[t].status != ST_RUNNING) return "target-not-running";
+        return NULL;
+    case OP_RUN:
+        return (a->id == 0) ? NULL : "not-dispatcher";
+    case OP_HOLD:
+    case OP_PYIELD:
+    case OP_PEXIT:
+    case OP_PRETURN:
+        return (a->id != 0) ? NULL : "dispatcher";
+    default:
+        return "unknown";
+    }
+}
+
+/* Model effect of the library call about to be made by actor a; sets expect.
+   Returns 0 for a run step that finds the event queue empty, else 1. */
+static int m_pre(struct actor *a, const struct step *s)
+{
+    struct actor *t = (s->tgt >= 0 && s->tgt < nact) ? &act[s->tgt] : NULL;
+    m_switching = 1;
+    switch (s->op) {
+    case OP_START:
+        m_begin(t, a->id);
+        break;
+    case OP_RESUME:
+        cnt.resumes++;
+        m_transfer(a, t, s->val);
+        break;
+    case OP_TRANSFER:
+        cnt.transfers++;
+        m_transfer(a, t, s->val);
+        break;
+    case OP_YIELD:
+        cnt.yields++;
+        if (a->id == 0) cnt.mainyield++;
+        m_transfer(a, &act[a->caller], s->val);
+        break;
+    case OP_EXIT:
+        cnt.exits++;
+        if (s->depth > 0) cnt.exit_deep++;
+        m_finish(a, s->val);
+        break;
+    case OP_STOP:
+        cnt.stops++;
+        if (t == a) {
+            cnt.selfstop++;
+            m_finish(a, s->val);
+        }
+        else {
+            t->status = ST_FINISHED;
+            t->exit_value = s->val;
+            t->stopped_by_other = 1;
+            m_switching = 0;
+            expect_set(a->id, EX_RETURN, 0, 0);
+        }
+        break;
+    case OP_PSTART:
+        (void)mq_add(EV_START, t->id, 0, m_now);
+        m_switching = 0;
+        expect_set(a->id, EX_RETURN, 0, 0);
+        break;
+    case OP_PRESUME:
+        cnt.resumes++;
+        (void)mq_add(EV_RESUME, t->id, (int64_t)s->val, m_now);
+        m_switching = 0;
+        expect_set(a->id, EX_RETURN, 0, 0);
+        break;
+    case OP_PSTOP:
+        cnt.stops++;
+        if (t == a) {           /* a process stopping itself: like cmb_process_exit */
+            cnt.selfstop++;
+            m_finish(a, s->val);
+            break;
+        }
+        t->status = ST_FINISHED;
+        t->exit_value = s->val;
+        t->stopped_by_other = 1;
+        mq_remove_subject(t->id);
+        m_switching = 0;
+        expect_set(a->id, EX_RETURN, 0, 0);
+        break;
+    case OP_RUN: {
+        const int e = mq_next();
+        if (e < 0) {
+            /* empty queue: cmb_event_execute_next() returns false, no switch */
+            m_switching = 0;
+            expect_set(a->id, EX_RETURN, 1, 0);
+            return 0;
+        }
+        mq[e].live = 0;
+        m_now = mq[e].t;
+        cnt.events++;
+        struct actor *p = &act[mq[e].proc];
+        if (mq[e].kind == EV_START) {
+            m_begin(p, 0);
+        }
+        else {
+            if (mq[e].kind == EV_TIMER) { p->timer = -1; cnt.timerwake++; }
+            else cnt.resumewake++;
+            p->caller = 0;
+            expect_set(p->id, EX_RETURN, 1, (uint64_t)mq[e].sig);
+        }
+        break;
+    }
+    case OP_HOLD:
+        cnt.holds++;
+        a->timer = mq_add(EV_TIMER, a->id, 0, m_now + (double)s->val);
+        act[0].caller = a->id;
+        expect_set(0, EX_RETURN, 1, 1);
+        break;
+    case OP_PYIELD:
+        cnt.yields++;
+        act[0].caller = a->id;
+        expect_set(0, EX_RETURN, 1, 1);
+        break;
+    case OP_PEXIT:
+        cnt.exits++;
+        if (s->depth > 0) cnt.exit_deep++;
+        m_finish(a, s->val);
+        break;
+    default:
+        fail("machinery: m_pre op %d", s->op);
+    }
+    return 1;
+}
+
+/* --------------------------------------------------------------- thunk --- */
+
+/* The ONE library call of a step, executed with the generated register and
+   MXCSR contents loaded by coro_probe_call */
+static void coro_thunk(struct coro_probe_io *io)
+{
+    switch (io->op) {
+    case OP_START:
+        io->ret = (uint64_t)(uintptr_t)cmi_coroutine_start(io->target, (void *)(uintptr_t)io->val);
+        break;
+    case OP_RESUME:
+        io->ret = (uint64_t)(uintptr_t)cmi_coroutine_resume(io->target, (void *)(uintptr_t)io->val);
+        break;
+    case OP_TRANSFER:
+        io->ret = (uint64_t)(uintptr_t)cmi_coroutine_transfer(io->target, (void *)(uintptr_t)io->val);
+        break;
+    case OP_YIELD:
+        io->ret = (uint64_t)(uintptr_t)cmi_coroutine_yield((void *)(uintptr_t)io->val);
+        break;
+    case OP_EXIT:
+        cmi_coroutine_exit((void *)(uintptr_t)io->val);
+        break;
+    case OP_STOP:
+        cmi_coroutine_stop(io->target, (void *)(uintptr_t)io->val);
+        break;
+    case OP_PSTART:
+        cmb_process_start(io->target);
+        break;
+    case OP_PRESUME:
+        cmb_process_resume(io->target, (int64_t)io->val);
+        break;
+    case OP_PSTOP:
+        cmb_process_stop(io->target, (void *)(uintptr_t)io->val);
+        break;
+    case OP_RUN:
+        io->ret = (uint64_t)cmb_event_execute_next();
+        break;
+    case OP_HOLD:
+        io->ret = (uint64_t)cmb_process_hold((double)io->val);
+        break;
+    case OP_PYIELD:
+        io->ret = (uint64_t)cmb_process_yield();
+        break;
+    case OP_PEXIT:
+        cmb_process_exit((void *)(uintptr_t)io->val);
+        break;
+    default:
+        break;
+    }
+}
+
+static const char *const regname[6] = { "rbx", "rbp", "r12", "r13", "r14", "r15" };
+
+static uint64_t mix(uint64_t x)
+{
+    x ^= x >> 30; x *= UINT64_C(0xbf58476d1ce4e5b9);
+    x ^= x >> 27; x *= UINT64_C(0x94d049bb133111eb);
+    x ^= x >> 31;
+    return x;
+}
+
+/* One probed library call. iter > 0 varies the patterns of repeated calls. */
+static void probed_call(struct actor *a, const struct step *s, const int op, const uint64_t val,
+                        const uint64_t iter)
+{
+    struct coro_probe_io io;
+    memset(&io, 0, sizeof io);
+    for (int j = 0; j < 6; j++)
+        io.in[j] = iter ? (s->regs[j] ^ mix(iter * 8u + (uint64_t)j)) : s->regs[j];
+    io.mxcsr_in = s->mxcsr;
+    io.op = op;
+    io.val = val;
+    io.target = NULL;
+    if (s->tgt >= 0 && s->tgt < nact) {
+        if (layer == L_PROC) io.target = act[s->tgt].pp;
+        else io.target = handle_of(&act[s->tgt]);
+    }
+    const int switching = m_switching;
+    cnt.probes++;
+    if (switching) {
+        cnt.switches++;
+        if ((uint64_t)s->depth > cnt.maxdepth) cnt.maxdepth = (uint64_t)s->depth;
+        const int nd = (s->mxcsr & MXCSR_CONTROL) != MXCSR_DEFAULT;
+        if (nd) cnt.nondefault++;
+        if (s->depth > 0) { cnt.deep++; if (nd) cnt.deep_nd++; }
+        if ((s->mxcsr & 0x1F80u) != 0x1F80u) cnt.unmasked++;
+        cnt.rcmask |= UINT64_C(1) << ((s->mxcsr >> 13) & 3u);
+    }
+    fprintf(tr, "S %s %d %s %s %#" PRIx64 " d=%d m=%#x\n", aname(a->id), s->idx, opname[op],
+            aname(s->tgt), val, s->depth, s->mxcsr);
+    fflush(tr);
+
+    coro_probe_call(&io, coro_thunk);
+
+    /* back, possibly after many other coroutines ran */
+    for (int j = 0; j < 6; j++) {
+        if (io.out[j] != io.in[j])
+            fail("register: %s not preserved across %s by %s: loaded %#" PRIx64 ", found %#" PRIx64,
+                 regname[j], opname[op], (a->id == 0) ? "main" : "coroutine", io.in[j], io.out[j]);
+    }
+    if ((io.mxcsr_out & MXCSR_CONTROL) != (io.mxcsr_in & MXCSR_CONTROL))
+        fail("mxcsr: control bits not preserved across %s by %s: loaded %#x, found %#x",
+             opname[op], (a->id == 0) ? "main" : "coroutine", io.mxcsr_in, io.mxcsr_out);
+    if (io.mxcsr_out != io.mxcsr_in) cnt.flagsdiff++;
+    if (io.rsp_out != io.rsp_in || io.guard_out != PROBE_GUARD)
+        fail("stack: stack pointer or guard word not preserved across %s (rsp %#" PRIx64 " -> %#"
+             PRIx64 ", guard %#" PRIx64 ")", opname[op], io.rsp_in, io.rsp_out, io.guard_out);
+    fprintf(tr, "R %s %d %#" PRIx64 "\n", aname(a->id), s->idx, io.ret);
+    if (op == OP_HOLD && io.ret != 0 && a->timer >= 0) {
+        /* woken by something else than its own timer: cmb_process_hold has cancelled the timer */
+        mq[a->timer].live = 0;
+        a->timer = -1;
+    }
+    arrive(a, EX_RETURN, io.ret);
+    a->resumed = 1;
+}
+
+static void do_step(struct actor *a, const struct step *s)
+{
+    if (s->op == OP_RUN) {
+        for (uint64_t i = 0; i < s->val; i++) {
+            const int more = m_pre(a, s);
+            probed_call(a, s, OP_RUN, 0, i);
+            if (!more) break;
+        }
+    }
+    else {
+        (void)m_pre(a, s);
+        probed_call(a, s, s->op, s->val, 0);
+    }
+}
+
+/* Recursive frames holding canaries; the library call is made at the bottom,
+   every frame verifies its canaries when control is back and unwinds. */
+__attribute__((noinline))
+static void descend(struct actor *a, const struct step *s, const int level)
+{
+    volatile uint64_t canary[CANARY_N];
+    const uint64_t base = mix(((uint64_t)a->id << 48) ^ ((uint64_t)s->idx << 24) ^ (uint64_t)level);
+    for (int j = 0; j < CANARY_N; j++) canary[j] = base + (uint64_t)j * UINT64_C(0x9e3779b97f4a7c15);
+    if (level < s->depth) descend(a, s, level + 1);
+    else do_step(a, s);
+    for (int j = 0; j < CANARY_N; j++) {
+        if (canary[j] != base + (uint64_t)j * UINT64_C(0x9e3779b97f4a7c15))
+            fail("stack: canary %d of frame level %d of %s step %d (%s) changed: %#" PRIx64,
+                 j, level, aname(a->id), s->idx, opname[s->op], canary[j]);
+    }
+}
+
+/* Runs the script of a from its pc. Returns 1 if the function must return
+   *retval (return step), 0 when the script is exhausted. */
+static int interpret(struct actor *a, uint64_t *retval)
+{
+    volatile uint64_t canary[CANARY_N];
+    const uint64_t base = mix(UINT64_C(0xb0d7) ^ ((uint64_t)a->id << 32) ^ (uint64_t)a->incarnation);
+    for (int j = 0; j < CANARY_N; j++) canary[j] = base ^ (uint64_t)j;
+    while (a->pc < a->nsteps) {
+        const struct step *s = &a->steps[a->pc++];
+        const char *why = disabled(a, s);
+        if (why != NULL) {
+            cnt.skipped++;
+            fprintf(tr, "K %s %d %s %s %s\n", aname(a->id), s->idx, opname[s->op], aname(s->tgt), why);
+            continue;
+        }
+        cnt.steps++;
+        if (s->op == OP_RETURN || s->op == OP_PRETURN) {
+            cnt.tramp++;
+            fprintf(tr, "S %s %d %s - %#" PRIx64 " d=0 m=-\n", aname(a->id), s->idx, opname[s->op], s->val);
+            fflush(tr);
+            if (layer == L_RAW && a->exitfn == 1) expect_set(a->id, EX_EXITFN, 1, s->val);
+            else m_finish(a, s->val);
+            *retval = s->val;
+            return 1;
+        }
+        descend(a, s, 0);
+        for (int j = 0; j < CANARY_N; j++)
+            if (canary[j] != (base ^ (uint64_t)j))
+                fail("stack: canary %d of the body frame of %s changed after step %d", j, aname(a->id), s->idx);
+    }
+    return 0;
+}
+
+/* Script exhausted: hand control to main / the dispatcher whenever resumed */
+__attribute__((noreturn))
+static void park(struct actor *a)
+{
+    struct step s;
+    memset(&s, 0, sizeof s);
+    for (;;) {
+        a->parks++;
+        cnt.parks++;
+        s.idx = -(int)a->parks;
+        s.depth = 0;
+        s.mxcsr = MXCSR_DEFAULT;
+        for (int j = 0; j < 6; j++) s.regs[j] = mix(PARK_MSG ^ ((uint64_t)a->id << 8) ^ (a->parks * 8u + (uint64_t)j));
+        fprintf(tr, "P %s\n", aname(a->id));
+        if (layer == L_RAW) {
+            s.op = OP_TRANSFER;
+            s.tgt = 0;
+            s.val = PARK_MSG;
+        }
+        else {
+            s.op = OP_PYIELD;
+            s.tgt = -1;
+            s.val = 0;
+        }
+        do_step(a, &s);
+    }
+}
+
+static struct actor *actor_of_handle(const void *h)
+{
+    for (int i = 1; i < nact; i++) if ((void *)act[i].cp == h) return &act[i];
+    return NULL;
+}
+
+static void check_snap(const struct coro_snap *sn, const struct actor *a, const char *what)
+{
+    if ((sn->rsp % 16u) != 8u)
+        fail("alignment: stack pointer %#" PRIx64 " at entry of %s of %s is not 8 mod 16",
+             sn->rsp, what, aname(a->id));
+    if (!sn->movaps_done)
+        fail("machinery: aligned store not executed at entry of %s", what);
+    const uintptr_t lo = (uintptr_t)a->cp->stack, hi = (uintptr_t)a->cp->stack_base;
+    if (sn->rsp <= lo || sn->rsp > hi)
+        fail("stack: %s of %s entered with rsp %#" PRIx64 " outside its own stack [%#" PRIxPTR ", %#"
+             PRIxPTR "]", what, aname(a->id), sn->rsp, lo, hi);
+}
+
+/* The coroutine / process function (entered through coro_entry_stub) */
+void *coro_body(struct cmi_coroutine *cp, void *context)
+{
+    const struct coro_snap sn = coro_entry_snap;
+    struct actor *a = actor_of_handle(cp);
+    if (a == NULL) {
+        struct actor *e = (expect.kind != EX_NONE) ? &act[expect.actor] : NULL;
+        fail("entry-args: function entered with handle %p, which is no coroutine of the case "
+             "(expected %s = %p)", (void *)cp, e ? aname(e->id) : "?", e ? (void *)e->cp : NULL);
+    }
+    fprintf(tr, "B %s inc=%d ctx=%#" PRIx64 " mxcsr=%#x\n", aname(a->id), a->incarnation,
+            (uint64_t)(uintptr_t)context, sn.mxcsr);
+    if ((uint64_t)(uintptr_t)context != a->ctx)
+        fail("entry-args: %s entered with context %#" PRIx64 ", expected %#" PRIx64,
+             aname(a->id), (uint64_t)(uintptr_t)context, a->ctx);
+    check_snap(&sn, a, "the coroutine function");
+    a->entered = 1;
+    arrive(a, EX_ENTRY, 0);
+    if ((uint64_t)(uintptr_t)cmi_coroutine_context(cp) != a->ctx)
+        fail("entry-args: cmi_coroutine_context(%s) differs from the context given", aname(a->id));
+    uint64_t retval = 0;
+    if (interpret(a, &retval)) return (void *)(uintptr_t)retval;
+    park(a);
+}
+
+/* The probing exit function (raw layer, exitfn probe; entered through coro_exit_stub
+   when the coroutine function returns through the trampoline) */
+void coro_exit_body(void *retval)
+{
+    const struct coro_snap sn = coro_exit_snap;
+    struct actor *a = actor_of_handle(cmi_coroutine_current());
+    if (a == NULL) fail("control: exit function running but current coroutine is unknown");
+    fprintf(tr, "X %s %#" PRIx64 "\n", aname(a->id), (uint64_t)(uintptr_t)retval);
+    check_snap(&sn, a, "the exit function");
+    cnt.exitprobe++;
+    arrive(a, EX_EXITFN, (uint64_t)(uintptr_t)retval);
+    m_finish(a, (uint64_t)(uintptr_t)retval);
+    fflush(tr);
+    cmi_coroutine_exit(retval);
+    fail("control: cmi_coroutine_exit returned in %s", aname(a->id));
+}
+
+/* ---------------------------------------------------------------- parse -- */
+
+static int parse_op(const char *s)
+{
+    for (int i = 0; i < OP_COUNT; i++) if (strcmp(s, opname[i]) == 0) return i;
+    return -1;
+}
+
+static int parse(char *text)
+{
+    char *cur = text, *line, *tok[16];
+    int total = 0;
+    layer = -1;
+    nact = 1;
+    memset(act, 0, sizeof act);
+    for (int i = 0; i < MAXACT; i++) {
+        act[i].id = i;
+        act[i].caller = act[i].parent = act[i].timer = -1;
+    }
+    act[0].status = ST_RUNNING;
+    while ((line = cimx_next_line(&cur)) != NULL) {
+        const int n = cimx_split(line, tok, 16);
+        if (n == 0) continue;
+        if (strcmp(tok[0], "layer") == 0 && n == 2) {
+            layer = strcmp(tok[1], "raw") == 0 ? L_RAW : strcmp(tok[1], "process") == 0 ? L_PROC : -1;
+            if (layer < 0) return -1;
+        }
+        else if (strcmp(tok[0], "co") == 0 && n == 5) {
+            const int id = (int)cimx_i64(tok[1]);
+            if (id != nact || id > MAXCO) return -1;
+            act[id].ctx = cimx_u64(tok[2]);
+            act[id].stack_size = (size_t)cimx_u64(tok[3]);
+            if (act[id].stack_size < 32768 || act[id].stack_size > (1u << 20)) return -1;
+            act[id].exitfn = strcmp(tok[4], "probe") == 0 ? 1 : strcmp(tok[4], "default") == 0 ? 0 : -1;
+            if (act[id].exitfn < 0) return -1;
+            nact++;
+        }
+        else if (strcmp(tok[0], "s") == 0 && n == 13) {
+            const int id = (int)cimx_i64(tok[1]);
+            if (id < 0 || id >= nact || layer < 0) return -1;
+            struct actor *a = &act[id];
+            if (a->nsteps == a->capsteps) {
+                a->capsteps = a->capsteps ? a->capsteps * 2 : 16;
+                a->steps = realloc(a->steps, (size_t)a->capsteps * sizeof *a->steps);
+            }
+            struct step *s = &a->steps[a->nsteps];
+            s->op = parse_op(tok[2]);
+            if (s->op < 0) return -1;
+            if ((layer == L_RAW) != (s->op <= OP_STOP)) return -1;
+            s->tgt = strcmp(tok[3], "-") == 0 ? -1 : (int)cimx_i64(tok[3]);
+            s->val = cimx_u64(tok[4]);
+            s->depth = (int)cimx_i64(tok[5]);
+            if (s->depth < 0 || s->depth > MAXDEPTH) return -1;
+            for (int j = 0; j < 6; j++) s->regs[j] = cimx_u64(tok[6 + j]);
+            const uint64_t m = cimx_u64(tok[12]);
+            if (m & ~UINT64_C(0xFFFF)) return -1;       /* reserved bits: ldmxcsr would fault */
+            s->mxcsr = (uint32_t)m;
+            if (s->op == OP_HOLD && s->val > 16) return -1;
+            if (s->op == OP_RUN && s->val > 64) return -1;
+            s->idx = a->nsteps++;
+            if (++total > 4000) return -1;
+        }
+        else {
+            return -1;
+        }
+    }
+    if (layer < 0 || nact < 2) return -1;
+    return 0;
+}
+
+/* ----------------------------------------------------------------- mode -- */
+
+int mode_coro(char *text, FILE *trace)
+{
+    tr = trace;
+    memset(&cnt, 0, sizeof cnt);
+    memset(&expect, 0, sizeof expect);
+    nmq = 0; mq_seq = 0; m_now = 0.0; m_current = 0;
+    if (parse(text) != 0) {
+        fprintf(trace, "F cannot parse coro case\n");
+        return CIMX_PARSE_ERROR;
+    }
+    cmb_logger_flags_off(CMB_LOGGER_INFO | CMB_LOGGER_WARNING);
+
+    if (layer == L_PROC) cmb_event_queue_initialize(0.0);
+    for (int i = 1; i < nact; i++) {
+        struct actor *a = &act[i];
+        if (layer == L_RAW) {
+            a->cp = cmi_coroutine_create();
+            cmi_coroutine_initialize(a->cp, coro_entry_stub, (void *)(uintptr_t)a->ctx,
+                                     a->exitfn ? coro_exit_stub : NULL, a->stack_size);
+        }
+        else {
+            char name[16];
+            snprintf(name, sizeof name, "p%d", i);
+            a->pp = cmb_process_create();
+            cmb_process_initialize(a->pp, name, (cmb_process_func *)coro_entry_stub,
+                                   (void *)(uintptr_t)a->ctx, 0);
+            a->cp = (struct cmi_coroutine *)a->pp;
+        }
+        if (cmi_coroutine_status(a->cp) != CMI_COROUTINE_CREATED)
+            fail("status: new coroutine %s is not in state created", aname(i));
+    }
+    struct actor *me = &act[0];
+    cross_check(me, "before the first step");
+
+    uint64_t dummy;
+    if (interpret(me, &dummy)) fail("machinery: main returned");
+
+    /* end of main's script: stop whoever is still running, final checks */
+    cross_check(me, "after main's last step");
+    for (int i = 1; i < nact; i++) {
+        struct actor *a = &act[i];
+        if (a->status != ST_RUNNING) continue;
+        const uint64_t v = UINT64_C(0xf17a100000000000) + (uint64_t)i;
+        if (layer == L_RAW) cmi_coroutine_stop(a->cp, (void *)(uintptr_t)v);
+        else { cmb_process_stop(a->pp, (void *)(uintptr_t)v); mq_remove_subject(i); }
+        a->status = ST_FINISHED;
+        a->exit_value = v;
+        cross_check(me, "after the final stop");
+    }
+    for (int i = 1; i < nact; i++) {
+        if (layer == L_RAW) { cmi_coroutine_terminate(act[i].cp); cmi_coroutine_destroy(act[i].cp); }
+        else { cmb_process_terminate(act[i].pp); cmb_process_destroy(act[i].pp); }
+    }
+    if (layer == L_PROC) { cmb_event_queue_clear(); cmb_event_queue_terminate(); }
+
+    int entered = 0, resumed = 0;
+    for (int i = 1; i < nact; i++) { entered += act[i].entered; resumed += act[i].resumed; }
+    fprintf(trace, "N layer=%s actors=%d steps=%" PRIu64 " skipped=%" PRIu64 " probes=%" PRIu64
+            " switches=%" PRIu64 " maxdepth=%" PRIu64 " deep=%" PRIu64 " deep_nd=%" PRIu64
+            " nondefault=%" PRIu64 " unmasked=%" PRIu64 " rcmask=%" PRIu64 " entered=%d resumed=%d"
+            " starts=%" PRIu64 " restarts=%" PRIu64 " stoprestart=%" PRIu64 " tramp=%" PRIu64
+            " exitprobe=%" PRIu64 " exits=%" PRIu64 " exit_deep=%" PRIu64 " stops=%" PRIu64
+            " parks=%" PRIu64 " yields=%" PRIu64 " transfers=%" PRIu64 " resumes=%" PRIu64
+            " mainyield=%" PRIu64 " nested_start=%" PRIu64 " flagsdiff=%" PRIu64 " events=%" PRIu64
+            " holds=%" PRIu64 " timerwake=%" PRIu64 " resumewake=%" PRIu64 " selfstop=%" PRIu64 "\n",
+            layer == L_RAW ? "raw" : "process", nact - 1, cnt.steps, cnt.skipped, cnt.probes,
+            cnt.switches, cnt.maxdepth, cnt.deep, cnt.deep_nd, cnt.nondefault, cnt.unmasked,
+            cnt.rcmask, entered, resumed, cnt.starts, cnt.restarts, cnt.stoprestart, cnt.tramp,
+            cnt.exitprobe, cnt.exits, cnt.exit_deep, cnt.stops, cnt.parks, cnt.yields,
+            cnt.transfers, cnt.resumes, cnt.mainyield, cnt.nested_start, cnt.flagsdiff, cnt.events,
+            cnt.holds, cnt.timerwake, cnt.resumewake, cnt.selfstop);
+    for (int i = 0; i < nact; i++) free(act[i].steps);
+    return CIMX_OK;
+}
